@@ -405,6 +405,10 @@ theorem sliceOf_snd (nl : Bool) (q : Child × St) : (sliceOf nl q).2 = q.2 := by
   obtain ⟨o, σ⟩ := q; cases o <;> rfl
 theorem mapOf_snd (nl : Bool) (q : Child × St) : (mapOf nl q).2 = q.2 := by
   obtain ⟨o, σ⟩ := q; cases o <;> rfl
+theorem finishR_mono (r : Bool) (t : GoType) (p : R × St) : Mono p.2 (finishR r t p).2 := by
+  unfold finishR; split
+  · exact Mono.refl _
+  · exact finish_mono t p
 theorem custom_mono (o : Opts) (nm : String) (p : R × St) : Mono p.2 (custom o nm p).2 := by
   obtain ⟨r, σ⟩ := p
   cases r <;> simp only [custom] <;> try exact Mono.refl _
@@ -452,7 +456,7 @@ theorem gen_mono (Δ : Decls) (o : Opts) : ∀ (f : Nat),
         · exact note_mono _ _
         · split
           · exact Mono.refl σ
-          · exact Mono.trans (ihB _ _ _ _ _ σ) (finish_mono t _)
+          · exact Mono.trans (ihB _ _ _ _ _ σ) (finishR_mono _ t _)
       · intro ps top nm nl b σ
         cases b with
         | bool | int _ | float _ | string | bytes | time | array _ _ =>
@@ -828,6 +832,22 @@ theorem finish_good {Δ : Decls} {o : Opts} {t : GoType} {ps : List GoType} {q :
   | excluded => exact ⟨hb.1.2, fun _ => hb.1, fun s hs => by cases hs⟩
   | err => exact ⟨hb.1.2, fun _ => hb.1, fun s hs => by cases hs⟩
 
+theorem finishR_good {Δ : Decls} {o : Opts} {t : GoType} {ps : List GoType} {q : R × St}
+    (hb : GoodB Δ o (stripPtr t) (isPtr t && !ps.isEmpty) q) :
+    (∀ e, e ∈ (finishR ps.isEmpty t q).2.refs → RefGood Δ o (finishR ps.isEmpty t q).2 e) ∧
+    (ps ≠ [] → Inv Δ o (finishR ps.isEmpty t q).2) ∧
+    (∀ s, (finishR ps.isEmpty t q).1 = .ok s →
+      RelS Δ (typeName o) (okσ (finishR ps.isEmpty t q).2) (if ps.isEmpty then stripPtr t else t) s) := by
+  unfold finishR
+  split
+  · rename_i hc
+    simp only [Bool.and_eq_true] at hc
+    refine ⟨hb.1.2, fun _ => hb.1, ?_⟩
+    intro s hs
+    rw [if_pos hc.1]
+    exact relN_use (isPtr_stripPtr t) (hb.2 s hs) (stripPtr t) (stripPtr_idem t) (by simp [isPtr_stripPtr])
+  · exact finish_good hb
+
 theorem structSch_rel_struct {Δ tn ok fs nl props} (h : RelProps Δ tn ok (flat fs) props) :
     RelS Δ tn ok (.struct fs) (structSch nl props) := by
   simp only [structSch, RelS, stripPtr, isPtr, under]
@@ -903,8 +923,8 @@ theorem gen_good (Δ : Decls) (o : Opts) : ∀ (f : Nat),
           exact ⟨hi.2, fun _ => hi, fun s hs => by cases hs⟩
         · simp only [hnp, if_false, Bool.false_eq_true] at ha ⊢
           have hne : ps ++ [stripPtr t] ≠ [] := by simp
-          have hqa := (finish_mono t _).2 ha
-          exact finish_good (ihB _ _ _ _ _ σ hne (isPtr_stripPtr t) hi hqa)
+          have hqa := (finishR_mono _ t _).2 ha
+          exact finishR_good (ihB _ _ _ _ _ σ hne (isPtr_stripPtr t) hi hqa)
       · -- genBody
         intro ps top nm nl b σ hps hpb hi ha
         cases b with
